@@ -371,7 +371,10 @@ def main(mod, argv=None):
     )
     if hasattr(mod, 'extra_evidence'):
         ev['coverage'].update(mod.extra_evidence(results))
-    with open(os.path.join(VERIF, 'evidence', f'{pid}.json'), 'w') as f:
+    # evidence describes /repo itself: a self-test run against a scratch copy (VERIF_REPO) writes next to that copy instead
+    scratch = os.environ.get('VERIF_REPO', '/repo').rstrip('/')
+    evpath = os.path.join(VERIF, 'evidence', f'{pid}.json') if scratch == '/repo' else os.path.join(scratch, f'_verif_evidence_{pid}.json')
+    with open(evpath, 'w') as f:
         json.dump(ev, f, indent=1, default=str)
     for ln in lines:
         print(ln)
